@@ -238,7 +238,12 @@ def run(ctx, only=None):
              "sets over the command's vocabulary, every pool value through every duration/integer/enum/timestamp/range reader, typed lists "
              "(Vec; tuples of arity 1..8) answered by N-1/N/N+1 frames or an ACK, byte-level corruptions and random bytes; real parser, real "
              "Command::response / CommandList::responses, every public accessor and iterator walked under catch_unwind; regression witnesses "
-             "of fixes 9b21408, 18ee26e, 1288aae always first; non-trivial = the bytes reached the typed conversion",
+             "of fixes 9b21408, 18ee26e, 1288aae always first; floats never appear in the model: decimal text is classified exactly "
+             "(syntax of str::parse::<f64>, NaN/inf/negative/>= 2^64 => error) with exact nanoseconds where std is provably exact and an "
+             "opaque value ('~', compared as Ok only) elsewhere; the model abstains ('undetermined', not compared) within 4096 of 2^64 s, "
+             "for negative values between 1e-325 and 1e-322 and for timestamps that are neither canonical nor obviously malformed; "
+             "song-listing commands print skip-model (modelled by C14) - for all of these the no-PANIC oracle still applies; "
+             "non-trivial = the bytes reached the typed conversion",
         samples=[cases[0][:300], cases[-1][:300]], distribution=dist, oracle_failures=fails, disagreements=dis, exhaustive=False)
 
 
